@@ -94,14 +94,11 @@ impl<T: ?Sized> Mutex<T> {
                             break;
                         }
                         self.unlock();
-                    } else {
+                    } else if !b_ignore {
                         // register
                         cur.set_release();
                         // re-check unpark status
                         if cur.is_unparked() && cur.take_release() {
-                            if b_ignore {
-                                break;
-                            }
                             self.unlock();
                         }
                     }
